@@ -255,8 +255,20 @@ def _offsets(ctx, prog, wt, rd):
         if mir.contains(t, lambda x: x[0] == 'call' and cname(x[1]) == 'Arguments::new'):
             continue
         gs = [(strip(g), opw.truth(k)) for g, k, sw in dg.guard_terms(d[1])]
-        exact = any(isinstance(g, tuple) and g[0] == 'bin' and g[1] == 'Eq' and v is True and util.const_val(g[3]) == 0.0 and util.param_index(g[2]) == 1 for g, v in gs) or \
-            any(isinstance(g, tuple) and g[0] == 'bin' and g[1] == 'Ne' and v is False and util.const_val(g[3]) == 0.0 and util.param_index(g[2]) == 1 for g, v in gs)
+        def is_zero_test(g, v):
+            # x == 0.0 on its true edge, x != 0.0 on its false edge; operator form or PartialEq::eq / ne on references
+            if not isinstance(g, tuple):
+                return False
+            if g[0] == 'bin' and g[1] in ('Eq', 'Ne'):
+                op, a, b = g[1], g[2], g[3]
+            elif g[0] == 'call' and cname(g[1]) in ('PartialEq::eq', 'PartialEq::ne') and len(g) == 4:
+                op, a, b = ('Eq' if cname(g[1]).endswith('eq') else 'Ne'), g[2], g[3]
+            else:
+                return False
+            sides = [(a, b), (b, a)]
+            zero = any(util.param_index(x) == 1 and util.const_val(y) == 0.0 for x, y in sides)
+            return zero and ((op == 'Eq') == (v is True)) and v in (True, False)
+        exact = any(is_zero_test(g, v) for g, v in gs)
         lit = mir.subterms(t, lambda x: x[0] == 'const' and x[1] == 'str')
         zero_lit = [x[2] for x in lit] in (['0'], ['0.0'], ['deg(0)'], ['deg(0.0)'])
         short_found.append('%s when %s' % ([x[2] for x in lit], [show(g, maxdepth=4) + '=' + str(v) for g, v in gs]))
